@@ -19,7 +19,7 @@ _counter = [0]
 
 
 def channels(tier):
-    ch = ["lowlevel", "path", "path.gz", "fileobj", "lowlevel+ignore", "second-generation", "helpers", "resumed"]
+    ch = ["lowlevel", "path", "path.gz", "fileobj", "lowlevel+ignore", "second-generation", "helpers", "resumed", "concatenated"]
     if tier == "thorough":
         ch += ["path.bz2", "path.lz4", "path.zst"]
     return ch
@@ -64,6 +64,17 @@ def roundtrip(records, channel):
 
         with ignore_fields_for_comparison(["_generated", "x", "a", "n"]):
             return roundtrip(records, "lowlevel")
+    if channel == "concatenated":
+        # `cat part1 part2`: every part is a complete stream with its own header and announcements; read as one source
+        half = (len(records) + 1) // 2
+        blob = b""
+        for part in (records[:half], records[half:], []):
+            buf = io.BytesIO()
+            w = RecordStreamWriter(buf)
+            _feed_part(w, part, records)
+            w.flush()
+            blob += buf.getvalue()
+        return list(RecordStreamReader(io.BytesIO(blob)))
     if channel == "resumed":
         # a consumer that peeks at the first record (or leaves its loop early) and carries on with the same reader later
         buf = io.BytesIO()
@@ -194,7 +205,7 @@ def run_case(case):
     outs = []
     nontrivial = any(any(s[1] != ["none"] for s in o[3][:-3]) if o[0] == "rec" else True for o in expected)
     n = 0
-    for ch in channels(TIER[0]):
+    for ch in (channels(TIER[0]) if not case.get("light") else ["lowlevel", "path"]):
         n += 1
         try:
             got = roundtrip(records, ch)
